@@ -22,8 +22,10 @@ type smCfg struct {
 	methods  map[string]string  // receiver methods callable as statements -> Lean function (takes s and extraArgs)
 	extraArg string             // e.g. " now" appended to calls of sibling methods
 	special  func(en *env, e ast.Expr, want kind) (string, kind, bool)
-	loaded   map[string]string // local variable -> mutable field whose (atomically loaded) value it holds
-	rmw      []string          // stores whose value was computed from an earlier load of the same field: not one atomic update
+	loaded   map[string]string        // local variable -> mutable field whose (atomically loaded) value it holds
+	leanOf   map[string]string        // source field name -> field name in the generated Lean structure (default: the same)
+	pure     map[string]*ast.FuncDecl // receiver methods without effect on the state, usable in expressions
+	rmw      []string                 // stores whose value was computed from an earlier load of the same field: not one atomic update
 }
 
 func (c *smCfg) env() *env {
@@ -33,7 +35,7 @@ func (c *smCfg) env() *env {
 		if se, ok := e.(*ast.SelectorExpr); ok {
 			if id, ok := se.X.(*ast.Ident); ok && id.Name == c.recv {
 				if k, ok := c.mut[se.Sel.Name]; ok {
-					return "s." + se.Sel.Name, k, true
+					return "s." + c.lean(se.Sel.Name), k, true
 				}
 				if b, ok := c.ro[se.Sel.Name]; ok {
 					return b.lean, b.k, true
@@ -45,7 +47,51 @@ func (c *smCfg) env() *env {
 			switch fn {
 			case "atomic.LoadInt64", "atomic.LoadUint64", "atomic.LoadInt32", "atomic.LoadUint32":
 				if f, ok := c.addrField(call.Args[0]); ok {
-					return "s." + f, c.mut[f], true
+					return "s." + c.lean(f), c.mut[f], true
+				}
+			}
+			// a receiver method that only computes from the state (no stores): a straight-line body
+			// `x := e; …; return r` is translated in place
+			if se, ok := call.Fun.(*ast.SelectorExpr); ok && len(call.Args) == 0 {
+				if id, ok := se.X.(*ast.Ident); ok && id.Name == c.recv {
+					if fd := c.pure[se.Sel.Name]; fd != nil && fd.Body != nil && len(fd.Body.List) >= 1 {
+						oldRecv := c.recv
+						if fd.Recv != nil && len(fd.Recv.List) == 1 && len(fd.Recv.List[0].Names) == 1 {
+							c.recv = fd.Recv.List[0].Names[0].Name
+						}
+						defer func() { c.recv = oldRecv }()
+						en2 := c.env()
+						for k, v := range en.vars {
+							en2.vars[k] = v
+						}
+						list := fd.Body.List
+						for _, st := range list[:len(list)-1] {
+							as, ok := st.(*ast.AssignStmt)
+							if !ok || as.Tok != token.DEFINE || len(as.Lhs) != 1 || len(as.Rhs) != 1 {
+								bail("helper %s is not straight-line", se.Sel.Name)
+							}
+							lhs, ok := as.Lhs[0].(*ast.Ident)
+							if !ok {
+								bail("helper %s is not straight-line", se.Sel.Name)
+							}
+							rhs, k := en2.tr(as.Rhs[0], kUnknown)
+							for f := range c.mut {
+								if c.readsField(as.Rhs[0], f) {
+									if c.loaded == nil {
+										c.loaded = map[string]string{}
+									}
+									c.loaded[lhs.Name] = f
+								}
+							}
+							en2.vars[lhs.Name] = binding{"(" + rhs + ")", k}
+						}
+						ret, ok := list[len(list)-1].(*ast.ReturnStmt)
+						if !ok || len(ret.Results) != 1 {
+							bail("helper %s does not end in a single return", se.Sel.Name)
+						}
+						r, k := en2.tr(ret.Results[0], want)
+						return r, k, true
+					}
 				}
 			}
 		}
@@ -75,6 +121,13 @@ func (c *smCfg) readsField(e ast.Expr, f string) bool {
 		return !found
 	})
 	return found
+}
+
+func (c *smCfg) lean(f string) string {
+	if n, ok := c.leanOf[f]; ok {
+		return n
+	}
+	return f
 }
 
 // addrField recognises &recv.field
@@ -169,16 +222,16 @@ func (c *smCfg) trBody(en *env, stmts []ast.Stmt, retKind kind, indent string, r
 				}
 				v, _ := en.tr(call.Args[1], c.mut[f])
 				if c.readsField(call.Args[1], f) {
-					c.rmw = append(c.rmw, fmt.Sprintf("%s := %s", f, v))
+					c.rmw = append(c.rmw, fmt.Sprintf("%s := %s", c.lean(f), v))
 				}
-				fmt.Fprintf(&sb, "%slet s : %s := { s with %s := %s }\n", indent, c.stType, f, v)
+				fmt.Fprintf(&sb, "%slet s : %s := { s with %s := %s }\n", indent, c.stType, c.lean(f), v)
 			case fn == "atomic.AddUint64" || fn == "atomic.AddInt64":
 				f, ok := c.addrField(call.Args[0])
 				if !ok {
 					bail("atomic add target not a receiver field")
 				}
 				v, _ := en.tr(call.Args[1], c.mut[f])
-				fmt.Fprintf(&sb, "%slet s : %s := { s with %s := (s.%s + %s) }\n", indent, c.stType, f, f, v)
+				fmt.Fprintf(&sb, "%slet s : %s := { s with %s := (s.%s + %s) }\n", indent, c.stType, c.lean(f), c.lean(f), v)
 			case strings.HasPrefix(fn, c.recv+".") && c.methods[strings.TrimPrefix(fn, c.recv+".")] != "" && len(call.Args) == 0:
 				fmt.Fprintf(&sb, "%slet s : %s := %s s%s\n", indent, c.stType, c.methods[strings.TrimPrefix(fn, c.recv+".")], c.extraArg)
 			default:
@@ -272,6 +325,47 @@ func genBreaker() string {
 		methods:  map[string]string{"reset": "Breaker.reset", "fail": "Breaker.fail", "success": "Breaker.success"},
 		extraArg: " now",
 	}
+	// the fields by ROLE, whatever they are called: the int64 is the time stamp, the uint64 that some
+	// atomic.AddUint64 increments is the failure counter, the other uint64 the threshold, the Duration the window
+	if roles := breakerFieldRoles(pi); roles != nil {
+		cfg.mut = map[string]kind{roles["lastFailureTime"]: kInt, roles["failures"]: kNat}
+		cfg.leanOf = map[string]string{roles["lastFailureTime"]: "lastFailureTime", roles["failures"]: "failures"}
+		cfg.ro = map[string]binding{roles["threshold"]: {"threshold", kNat}, roles["window"]: {"window", kInt}}
+	}
+	// receiver methods that store nothing: usable as expressions
+	cfg.pure = map[string]*ast.FuncDecl{}
+	for name, fd := range pi.funcs {
+		if !strings.HasPrefix(name, "ConsecCircuitBreaker.") || fd.Body == nil {
+			continue
+		}
+		m := strings.TrimPrefix(name, "ConsecCircuitBreaker.")
+		if cfg.methods[m] != "" || m == "ready" || m == "Ready" || m == "Call" {
+			continue
+		}
+		stores := false
+		ast.Inspect(fd.Body, func(n ast.Node) bool {
+			if call, ok := n.(*ast.CallExpr); ok {
+				fn := selString(call.Fun)
+				if strings.HasPrefix(fn, "atomic.Store") || strings.HasPrefix(fn, "atomic.Add") || strings.HasPrefix(fn, "atomic.Swap") || strings.HasPrefix(fn, "atomic.CompareAndSwap") {
+					stores = true
+				}
+			}
+			if _, ok := n.(*ast.AssignStmt); ok {
+				// an assignment to a receiver field would be a (non-atomic) store
+				for _, l := range n.(*ast.AssignStmt).Lhs {
+					if se, ok := l.(*ast.SelectorExpr); ok {
+						if id, ok := se.X.(*ast.Ident); ok && fd.Recv != nil && len(fd.Recv.List[0].Names) == 1 && id.Name == fd.Recv.List[0].Names[0].Name {
+							stores = true
+						}
+					}
+				}
+			}
+			return true
+		})
+		if !stores && fd.Type.Results != nil && len(fd.Type.Results.List) == 1 && fd.Type.Params.NumFields() == 0 {
+			cfg.pure[m] = fd
+		}
+	}
 	cfg.special = func(en *env, e ast.Expr, want kind) (string, kind, bool) {
 		call, ok := e.(*ast.CallExpr)
 		if !ok {
@@ -364,4 +458,69 @@ func quoteAll(xs []string) []string {
 		out[i] = strconv.Quote(x)
 	}
 	return out
+}
+
+// breakerFieldRoles finds the four fields of ConsecCircuitBreaker by type and use
+func breakerFieldRoles(pi *pkgInfo) map[string]string {
+	var st *ast.StructType
+	for _, f := range pi.files {
+		for _, d := range f.Decls {
+			if gd, ok := d.(*ast.GenDecl); ok && gd.Tok == token.TYPE {
+				for _, sp := range gd.Specs {
+					if ts := sp.(*ast.TypeSpec); ts.Name.Name == "ConsecCircuitBreaker" {
+						st, _ = ts.Type.(*ast.StructType)
+					}
+				}
+			}
+		}
+	}
+	if st == nil {
+		return nil
+	}
+	var i64, u64, dur []string
+	for _, fl := range st.Fields.List {
+		t := selString(fl.Type)
+		if id, ok := fl.Type.(*ast.Ident); ok {
+			t = id.Name
+		}
+		for _, n := range fl.Names {
+			switch t {
+			case "int64":
+				i64 = append(i64, n.Name)
+			case "uint64":
+				u64 = append(u64, n.Name)
+			case "time.Duration":
+				dur = append(dur, n.Name)
+			}
+		}
+	}
+	if len(i64) != 1 || len(u64) != 2 || len(dur) != 1 {
+		return nil
+	}
+	added := ""
+	for _, f := range pi.files {
+		ast.Inspect(f, func(n ast.Node) bool {
+			if call, ok := n.(*ast.CallExpr); ok && selString(call.Fun) == "atomic.AddUint64" && len(call.Args) == 2 {
+				if u, ok := call.Args[0].(*ast.UnaryExpr); ok && u.Op == token.AND {
+					if se, ok := u.X.(*ast.SelectorExpr); ok && (se.Sel.Name == u64[0] || se.Sel.Name == u64[1]) {
+						added = se.Sel.Name
+					}
+				}
+			}
+			return true
+		})
+	}
+	if added == "" {
+		// no atomic add anywhere: keep the counter's usual name if it is there
+		if u64[0] == "failures" || u64[1] == "failures" {
+			added = "failures"
+		} else {
+			return nil
+		}
+	}
+	other := u64[0]
+	if other == added {
+		other = u64[1]
+	}
+	return map[string]string{"lastFailureTime": i64[0], "failures": added, "threshold": other, "window": dur[0]}
 }
